@@ -267,7 +267,8 @@ theorem disc_cas (env : Env) (vr : Variant) (name : Ref) (old : Option (Option V
     (hc : CacheOK c) :
     Disc (.cas name old (.sha new)) name .outside (compile env vr (.cas name old (.sha new)) c) := by
   simp only [compile, setIfEquals]
-  refine disc_follow_quiet (fun res x => by simp [nextPhase]) hc fun s c' hc' => ?_
+  refine disc_follow_quiet (fun res x => by simp [nextPhase]) hc fun s c'0 hc'0 => ?_
+  refine disc_getPacked hc'0 fun c' hc' => ?_
   refine disc_getPacked hc' fun c'' hc'' => ?_
   simp only [sOpenX]
   refine disc_call.mpr ⟨⟨rfl, rfl⟩, fun ok x _ => ?_⟩
@@ -318,8 +319,10 @@ theorem disc_add (env : Env) (vr : Variant) (name : Ref) (v : Sha) (c : Cache) (
   rcases isSha_cases hsha with rfl | ⟨s, rfl⟩
   · -- the ref does not exist (yet): take the lock and look again
     simp only [nextPhase, if_true, Option.isSome_none, Bool.false_eq_true, if_false]
-    refine disc_getPacked hc fun c' hc' => ?_
-    simp only [pmGet_nil, Option.map_none, sOpenX]
+    refine disc_getPacked hc fun c'0 hc'0 => ?_
+    simp only [pmGet_nil, Option.map_none]
+    refine disc_getPacked hc'0 fun c' hc' => ?_
+    simp only [sOpenX]
     refine disc_call.mpr ⟨⟨rfl, rfl⟩, fun ok x _ => ?_⟩
     cases ok with
     | false =>
@@ -400,7 +403,7 @@ theorem disc_rm_body (op : Op) (t : Ref) (kn : Know) (vr : Variant) (c : Cache) 
       else
         (sLstatR t fun found =>
           removePacked t c kl fun c =>
-            if found then sRemoveR t fun ok =>
+            if found then sStatR t fun _ => sRemoveR t fun ok =>
               if ok then (sRemoveL t fun _ => Prog.ret (.bool true) c) else sRemoveL t fun _ => k0 c
             else (sRemoveL t fun _ => Prog.ret (.bool true) c))) := by
   have tail : ∀ (c : Cache) (kk ke : Prog), CacheOK c →
@@ -469,12 +472,20 @@ theorem disc_rm_body (op : Op) (t : Ref) (kn : Know) (vr : Variant) (c : Cache) 
     refine disc_removePacked hc fun c' hc' => ?_
     cases x with
     | some w =>
-      simp only [Option.isSome_some, if_true, sRemoveR]
+      simp only [Option.isSome_some, if_true, sStatR, sRemoveR]
+      -- `os.path.isdir`: one more look at the file under the lock
+      refine disc_call.mpr ⟨by simp [Pre], fun res2 x2 hx2 => ?_⟩
+      obtain ⟨hcons2, _, hres2⟩ := hx2
+      have hk2 := statKnow_cons hcons hcons2
+      have hres2 : res2 = x2.isSome := hres2 rfl
+      subst hres2
+      simp only [nextPhase, if_true]
       refine disc_call.mpr ⟨?_, fun ok x' hx' => ?_⟩
       · refine ⟨rfl, _, rfl, ?_⟩
         intro x' hx'
-        rw [hop x' (statKnow_cons hcons hx').1]
-      · have hk := statKnow_cons hcons hx'.1
+        rw [hop x' (statKnow_cons hcons (statKnow_cons hcons2 hx').1).1]
+      · have hk3 := statKnow_cons hcons2 hx'.1
+        have hk := statKnow_cons hcons hk3.1
         have hok : ok = true := by
           have h := hx'.2.2 rfl
           rw [h, hk.2]
